@@ -18,7 +18,7 @@ files and on hostile variants of them; every document they write must parse with
 Hostile variants: byte patches (same length, inside existing IDENT/ASCII/UNITS payloads resp. printable runs) of the
 example DLIS / LIS files, generated LAS 2.0 text, hostile directory names.  A case dict holds the patches themselves, so
 replay_case does not depend on the random stream.  A not-well-formed document is classified strictly by
-classify_not_wf (F13 / F20 / None).  A producer that *raises* on a hostile input is counted and noted, not failed.
+classify_not_wf (F13-xml-illegal-char-reference / None; a comment-syntax error -- the former F20 -- is unlisted).  A producer that *raises* on a hostile input is counted and noted, not failed.
 """
 import functools
 import io
@@ -628,7 +628,7 @@ def _do_lishtml(ctx, case, work):
         if not res['ok']:
             ok = False
             details.append(_not_wf(ctx, dict(case, page=name), res, _illegal_strings_from_input(text, raw))[1])
-            if '[F13]' not in details[-1]:
+            if '[F13-xml-illegal-char-reference]' not in details[-1]:
                 continue
             # the example files themselves hold NUL bytes (F13): judge the rest of the page without those references
             res = parse_both(_ILLEGAL_REF.sub(lambda m: m.group(0) if is_xml_char(int(m.group(1))) else '', text))
